@@ -21,6 +21,11 @@ def Pc.crit : Pc → Bool
   | .user pc => pc.crit
   | .net pc _ => pc.crit
 
+/-- The networking thread has left the loop of `_run`. -/
+def NPc.exited : NPc → Bool
+  | .zAcq | .zRel | .zEnd | .done => true
+  | _ => false
+
 /-- The packet this thread has taken responsibility for (forced: since `acq`; popped: since `pop`)
 and not yet completely sent. -/
 def Pc.infl : Pc → List Pkt
@@ -138,20 +143,56 @@ structure LockInv (s : Sys) : Prop where
   net_zero : ∀ t pc n, (s.thr t).pc = .net pc n → t = 0
   /-- `networking_thread` is cleared only by the networking thread's last `rel` -/
   nt_slot : s.ntSlot = false → ∀ pc n, (s.thr 0).pc = .net pc n → pc = .zEnd ∨ pc = .done
+  /-- thread 0 does run the networking-thread program -/
+  nt_net : ∃ pc n, (s.thr 0).pc = .net pc n
+  /-- the networking thread leaves its loop only after seeing (or setting) `interrupt` -/
+  nt_exit : ∀ pc n, (s.thr 0).pc = .net pc n → pc.exited = true → s.interrupt = true
 
-theorem lock_step (cfg : Cfg) (s s' : Sys) (t : Tid) (h : LockInv s)
-    (hs : step cfg s t = some s') : LockInv s' := by
-  obtain ⟨h1, h2, h3, h4⟩ := h
+theorem lock_step_crit (cfg : Cfg) (s s' : Sys) (t : Tid) (h : LockInv s)
+    (hs : step cfg s t = some s') : ∀ u, (s'.thr u).pc.crit = true ↔ s'.owner = some u := by
+  have h1 := h.crit_owner
+  have h2 := h.depth_ok
   have h1t := h1 t
   step_cases hs hpc htd
-  all_goals refine ⟨?_, ?_, ?_, ?_⟩
-  all_goals first
-    | (intro u; have h1u := h1 u
-       grind [upd, Pc.crit, UPc.crit, NPc.crit, canAcq, ownerAfterRel, afterFlush, afterSti])
-    | grind [upd, Pc.crit, UPc.crit, NPc.crit, canAcq, ownerAfterRel, afterFlush, afterSti]
+  all_goals
+    intro u; have h1u := h1 u
+    grind [upd, Pc.crit, UPc.crit, NPc.crit, canAcq, ownerAfterRel]
+
+theorem lock_step_depth (cfg : Cfg) (s s' : Sys) (t : Tid) (h : LockInv s)
+    (hs : step cfg s t = some s') : s'.depth = if s'.owner = none then 0 else 1 := by
+  have h2 := h.depth_ok
+  have h1t := h.crit_owner t
+  step_cases hs hpc htd
+  all_goals grind [Pc.crit, UPc.crit, NPc.crit, canAcq, ownerAfterRel]
+
+theorem lock_step_net_zero (cfg : Cfg) (s s' : Sys) (t : Tid) (h : LockInv s)
+    (hs : step cfg s t = some s') : ∀ u pc n, (s'.thr u).pc = .net pc n → u = 0 := by
+  have h3 := h.net_zero
+  have h3t := h3 t
+  step_cases hs hpc htd
+  all_goals grind [upd]
+
+theorem lock_step_nt (cfg : Cfg) (s s' : Sys) (t : Tid) (h : LockInv s)
+    (hs : step cfg s t = some s') :
+    (s'.ntSlot = false → ∀ pc n, (s'.thr 0).pc = .net pc n → pc = .zEnd ∨ pc = .done) ∧
+    (∃ pc n, (s'.thr 0).pc = .net pc n) ∧
+    (∀ pc n, (s'.thr 0).pc = .net pc n → pc.exited = true → s'.interrupt = true) := by
+  have h3t := h.net_zero t
+  have h4 := h.nt_slot
+  obtain ⟨pc0, n0, h5⟩ := h.nt_net
+  have h6 := h.nt_exit
+  step_cases hs hpc htd
+  all_goals refine ⟨?_, ?_, ?_⟩
+  all_goals grind [upd, NPc.exited]
+
+theorem lock_step (cfg : Cfg) (s s' : Sys) (t : Tid) (h : LockInv s)
+    (hs : step cfg s t = some s') : LockInv s' :=
+  have h4 := lock_step_nt cfg s s' t h hs
+  ⟨lock_step_crit cfg s s' t h hs, lock_step_depth cfg s s' t h hs,
+   lock_step_net_zero cfg s s' t h hs, h4.1, h4.2.1, h4.2.2⟩
 
 theorem lock_init (progs : List (List Op)) : LockInv (init progs) := by
-  refine ⟨?_, rfl, ?_, ?_⟩
+  refine ⟨?_, rfl, ?_, ?_, ?_, ?_⟩
   · intro t; simp only [init]; split
     · simp [Pc.crit, NPc.crit]
     · split <;> simp [Pc.crit, UPc.crit]
@@ -159,6 +200,8 @@ theorem lock_init (progs : List (List Op)) : LockInv (init progs) := by
     · intro _; assumption
     · split <;> simp
   · simp [init]
+  · exact ⟨.oRdi, 0, by simp [init]⟩
+  · intro pc n h; simp [init] at h; rw [← h.1]; simp [NPc.exited]
 
 /-- What a step of a lock holder / non-holder does to `cur`. -/
 theorem cur_of_owner {s : Sys} {t : Tid} (h : s.owner = some t) : cur s = (s.thr t).pc := by
